@@ -34,11 +34,36 @@ pub struct WrapShared {
     /// fd sources: the callback asked the holder to unwrap its Generic after this event
     pub unwrap_now: Cell<bool>,
     pub unwrapped: Cell<bool>,
+    /// composite sources: what the socket child whose callback just ran returns
+    pub child_ret: Cell<Option<PostAction>>,
+    /// things (Async adapters) this source owns and drops from inside its next unregister (0) /
+    /// reregister (1) / register (2) call: (when, adapter id, the adapter)
+    pub victims: RefCell<Vec<(u8, Id, Box<dyn std::any::Any>)>>,
 }
 
 impl WrapShared {
     pub fn new(id: Id) -> Rc<WrapShared> {
         Rc::new(WrapShared { id, ..Default::default() })
+    }
+
+    /// Drop what the source was given for this call; the poller is borrowed by calloop here.
+    fn drop_victims(&self, when: u8, how: &'static str) {
+        let mut gone = Vec::new();
+        {
+            let mut v = self.victims.borrow_mut();
+            let mut i = 0;
+            while i < v.len() {
+                if v[i].0 == when || when == 9 {
+                    gone.push(v.remove(i));
+                } else {
+                    i += 1;
+                }
+            }
+        }
+        for (_, id, b) in gone {
+            drop(b);
+            crate::adapter::dropped_inside(id, how);
+        }
     }
 
     fn should_fail(&self, what: u8) -> bool {
@@ -74,6 +99,7 @@ impl<S> Wrap<S> {
 
 impl<S> Drop for Wrap<S> {
     fn drop(&mut self) {
+        self.sh.drop_victims(9, "drop with its owner");
         self.sh.dropped.set(self.sh.dropped.get() + 1);
     }
 }
@@ -127,6 +153,7 @@ impl<S: EventSource> EventSource for Wrap<S> {
 
     fn register(&mut self, poll: &mut Poll, tf: &mut TokenFactory) -> calloop::Result<()> {
         self.sh.reg.set(self.sh.reg.get() + 1);
+        self.sh.drop_victims(2, "drop inside register()");
         if self.sh.should_fail(1) {
             crate::engine::scripted_failure(self.sh.id, 1);
             return Err(scripted_io("register"));
@@ -140,6 +167,7 @@ impl<S: EventSource> EventSource for Wrap<S> {
 
     fn reregister(&mut self, poll: &mut Poll, tf: &mut TokenFactory) -> calloop::Result<()> {
         self.sh.rereg.set(self.sh.rereg.get() + 1);
+        self.sh.drop_victims(1, "drop inside reregister()");
         if self.sh.should_fail(2) {
             crate::engine::scripted_failure(self.sh.id, 2);
             return Err(scripted_io("reregister"));
@@ -149,6 +177,7 @@ impl<S: EventSource> EventSource for Wrap<S> {
 
     fn unregister(&mut self, poll: &mut Poll) -> calloop::Result<()> {
         self.sh.unreg.set(self.sh.unreg.get() + 1);
+        self.sh.drop_victims(0, "drop inside unregister()");
         if self.sh.should_fail(3) {
             crate::engine::scripted_failure(self.sh.id, 3);
             return Err(scripted_io("unregister"));
